@@ -290,7 +290,9 @@ class Check:
     # ----------------------------------------------------------------- finish
     def _write_replay(self, tag, data):
         h = hashlib.sha1(json.dumps(data, sort_keys=True, default=str).encode()).hexdigest()[:10]
-        path = os.path.join(VERIF, "replays", "%s-%s-%s.json" % (self.pid, tag, h))
+        rdir = os.path.join(VERIF, "replays") if REPO == "/repo" else os.path.join(self.build, "replays")
+        os.makedirs(rdir, exist_ok=True)
+        path = os.path.join(rdir, "%s-%s-%s.json" % (self.pid, tag, h))
         with open(path, "w") as f:
             json.dump(data, f, indent=1, sort_keys=True, default=str)
         return path
@@ -354,7 +356,11 @@ class Check:
             "violations": violations,
         }
         ev["coverage"].update(self.extra)
-        with open(os.path.join(VERIF, "evidence", self.pid + ".json"), "w") as f:
+        # the registered evidence file describes runs against /repo itself; a run redirected to a scratch tree
+        # (VERIF_REPO, used for seeded changes) keeps its record in its own build directory
+        ev_path = (os.path.join(VERIF, "evidence", self.pid + ".json") if REPO == "/repo"
+                   else os.path.join(self.build, "evidence.json"))
+        with open(ev_path, "w") as f:
             json.dump(ev, f, indent=1, default=str)
         for l in lines:
             print(l)
